@@ -218,7 +218,99 @@ def verify_instance(inst, idx):
         ob(f"{tag}.exactly_the_supplied_keywords_passed_unchanged", set(ckw) == set(kws) and all(ckw[k] is kwargs[k] for k in kws), dict(got=repr(ckw), expected=sorted(kws)))
         ob(f"{tag}.placeholder_never_passed", not any(isinstance(a, MissingTok) for a in cargs) and not any(isinstance(v, MissingTok) for v in ckw.values()))
         ob(f"{tag}.result_returned_unchanged", p.outcome[1] is res, repr(p.outcome[1]))
+    _named_positionals_by_keyword(inst, fn, shape, cx, ob, name)
     return name, obs
+
+
+def _named_positionals_by_keyword(inst, fn, shape, cx, ob, name):
+    """Call shapes in which named positional parameters are supplied BY KEYWORD (docs/usage.md: allowed when every method names
+    its positional parameters the same; all strictly positional when the spread of optional positionals exceeds one).
+    The generated entry point may refuse such a call at binding time - loudly - but if it accepts it, no supplied object may be
+    dropped or moved: the key has the lookup type of every supplied positional at its position, the method receives every
+    supplied object at its parameter. Refusal is a violation only in the documented case (uniform names, spread <= 1, no gap)."""
+    poslists = [[p for p in m if p["kind"] in ("P", "O")] for m in shape]
+    if not poslists:
+        return
+    maxpos = max(len(pl) for pl in poslists)
+    minreq = min(sum(1 for p in pl if not p["default"]) for pl in poslists)
+    uniform = all(len({pl[i]["name"] for pl in poslists if i < len(pl)}) == 1 and all(pl[i]["kind"] == "P" for pl in poslists if i < len(pl)) for i in range(maxpos))
+    done = set()
+    for mi, m in enumerate(shape):
+        pos = poslists[mi]
+        kwp = [p for p in m if p["kind"] == "K"]
+        reqk = {p["name"] for p in kwp if not p["default"]}
+        for npos in range(0, len(pos) + 1):
+            rest = list(range(npos, len(pos)))
+            for r in range(1, len(rest) + 1):
+                for S in itertools.combinations(rest, r):
+                    if any(pos[i]["kind"] != "P" for i in S):
+                        continue  # positional-only in this method: not a call shape the method accepts
+                    if any((not pos[i]["default"]) and i not in S for i in rest):
+                        continue  # a required parameter would be missing
+                    byname = {pos[i]["name"]: i for i in S}
+                    if len(byname) != len(S) or set(byname) & {p["name"] for p in kwp}:
+                        continue
+                    sig = (npos, tuple(sorted(byname.items())), tuple(sorted(reqk)))
+                    if sig in done:
+                        continue
+                    done.add(sig)
+                    supplied = sorted(list(range(npos)) + list(S))
+                    gap = supplied != list(range(len(supplied)))
+                    tag = f"shape[{npos}" + "".join(f",{nm}@{i}" for nm, i in sorted(byname.items(), key=lambda kv: kv[1])) + "".join("," + k for k in sorted(reqk)) + ";positional_by_keyword]"
+                    w = EntryWorld(inst["globals"])
+                    I = Interp(w)
+                    log = []
+                    w_ovld = OvldV(log)
+                    selfobj = Opaque("self")
+                    objs = {i: Opaque(f"arg{i}") for i in supplied}
+                    args = [objs[i] for i in range(npos)]
+                    kwargs = {nm: objs[i] for nm, i in byname.items()}
+                    kwobjs = {k: Opaque(f"kw_{k}") for k in reqk}
+                    kwargs.update(kwobjs)
+
+                    def thunk(I, args=args, kwargs=kwargs):
+                        env = Env(None)
+                        env.set("OVLD", w_ovld)
+                        return I.exec_function(fn, "emitted", "emitted:__DISPATCH__", ([selfobj] if inst["is_method"] else []) + list(args), dict(kwargs), env)
+
+                    try:
+                        paths = I.explore(thunk, name)
+                    except OutOfSubset as e:
+                        ob(f"{tag}.emitted_code_only_tests_MISSING_and_takes_types", False, str(e))
+                        continue
+                    if len(paths) != 1:
+                        ob(f"{tag}.single_path_for_a_fixed_presence_pattern", False, len(paths))
+                        continue
+                    p = paths[0]
+                    if p.outcome[0] == "raise":
+                        documented = uniform and (maxpos - minreq) <= 1 and not gap
+                        refused_at_binding = str(getattr(p.outcome[1], "tag", "")).startswith("binding:")
+                        ob(f"{tag}.refused_loudly_at_binding_or_passed_intact", refused_at_binding and not documented, dict(exception=repr(p.outcome[1]), tag=getattr(p.outcome[1], "tag", None), documented_as_accepted=documented))
+                        continue
+                    lookups = [e for e in log if e[0] == "lookup"]
+                    calls_ok = len(lookups) == 1 and len(lookups[0][2].calls) == 1
+                    detail = dict(lookups=[repr(e[1]) for e in lookups])
+                    ok = calls_ok and not gap
+                    if calls_ok:
+                        key, mth = lookups[0][1], lookups[0][2]
+                        key = list(key) if isinstance(key, (tuple, list)) else [key]
+                        got_pos = [k for k in key if isinstance(k, Lookup)]
+                        got_kw = {tuple(k) for k in key if isinstance(k, (tuple, list))}
+                        # every supplied positional object is looked up: at its position, or (never emitted today) under its name
+                        want_pos = [Lookup("subtler_type" if i in cx else "type", objs[i]) for i in supplied] if not gap else None
+                        want_kw = {(k, Lookup("subtler_type" if k in cx else "type", kwobjs[k])) for k in reqk}
+                        cargs, ckw, res = mth.calls[0]
+                        recv = list(cargs[1:] if inst["is_method"] else cargs)
+                        bound = {}
+                        for j, a in enumerate(recv):
+                            bound[j] = a
+                        for k, v in ckw.items():
+                            if k in byname and byname[k] not in bound:
+                                bound[byname[k]] = v
+                        passed = all(bound.get(i) is objs[i] for i in supplied) and set(bound) == set(supplied) and all(ckw.get(k) is kwobjs[k] for k in reqk) and set(ckw) <= set(reqk) | set(byname)
+                        ok = ok and got_pos == want_pos and got_kw == want_kw and passed and p.outcome[1] is res
+                        detail.update(key=repr(key), call=repr((cargs, ckw)), supplied=repr(objs), gap=gap)
+                    ob(f"{tag}.refused_loudly_at_binding_or_passed_intact", ok, detail)
 
 
 def shape_str(shape):
